@@ -274,14 +274,14 @@ func (d *dynAssigner) Assign(ctx context.Context, method string) jrpc2.Handler {
 // bubble (the clock stands still unless the test sleeps) a server is built, the
 // clock is advanced, the server is started: rpc.serverInfo reports the instant
 // of Start, to the nanosecond, however long before that NewServer ran.
-func startPhase(c Case) (out *engine.Verdict) {
+func startPhase(t *testing.T, c Case) (out *engine.Verdict) {
 	defer func() {
 		if p := recover(); p != nil {
 			v := engine.Failf("C17/serverinfo", "start-time phase: %v", p)
 			out = &v
 		}
 	}()
-	synctest.Test(&testing.T{}, func(*testing.T) {
+	synctest.Test(t, func(*testing.T) {
 		var opts *jrpc2.ServerOptions
 		if c.StartOpt == "zero" {
 			opts = &jrpc2.ServerOptions{DisableBuiltin: c.DisableBuiltin}
@@ -556,7 +556,7 @@ func bridgeGetPhase(w *world, c Case, root jrpc2.Assigner) *engine.Verdict {
 	return nil
 }
 
-func run(_ *testing.T, c Case) engine.Verdict {
+func run(t *testing.T, c Case) engine.Verdict {
 	w := &world{}
 	root := w.build(c.Tree, "")
 	start := time.Date(2024, 3, 1, 12, 0, 0, 0, time.UTC)
@@ -711,7 +711,7 @@ func run(_ *testing.T, c Case) engine.Verdict {
 		}
 	}
 	if c.StartGap > 0 {
-		if p := startPhase(c); p != nil {
+		if p := startPhase(t, c); p != nil {
 			return *p
 		}
 		labels = append(labels, "started-later-than-built")
